@@ -247,8 +247,45 @@ fn exec_lut(ctx: &mut Ctx, ev: &Ev) {
     }
 }
 
+fn exec_ctor(ctx: &mut Ctx, ev: &Ev) {
+    // values built by the named constructors, used as operands; their meaning is read back through cubes()
+    let n = ev.n;
+    let v = ev.i(0);
+    ctx.event(&format!("sop-ctor|n={}", n), ev, true);
+    let r = guard(|| {
+        let list = vec![Sop::zero(n), Sop::one(n), Sop::nth_var(n, v), Sop::nth_var_inv(n, v)];
+        let mut out = Vec::new();
+        for a in &list {
+            for b in &list {
+                out.push((a.clone(), b.clone(), a & b, a | b, !a, a.num_lits()));
+            }
+        }
+        out
+    });
+    match r {
+        Outcome::Returned(out) => {
+            let mut rec = Rec { ctx, ev: Some(ev), failed: false };
+            for (a, b, and, or, not, nl) in &out {
+                let ca: Vec<CubeM> = a.cubes().iter().map(CubeM::of).collect();
+                let cb: Vec<CubeM> = b.cubes().iter().map(CubeM::of).collect();
+                let fa = or_sets(n, &ca);
+                let fb = or_sets(n, &cb);
+                rec.chk("denotes", (0..1usize << n).all(|m| a.value(m) == fa[m]) && *nl == ca.iter().map(|c| c.lits()).sum::<usize>(), "ctor", || format!("constructor value {} does not evaluate to the OR of its cubes", a));
+                let wand: Vec<bool> = fa.iter().zip(fb.iter()).map(|(x, y)| *x && *y).collect();
+                let wor: Vec<bool> = fa.iter().zip(fb.iter()).map(|(x, y)| *x || *y).collect();
+                let wnot: Vec<bool> = fa.iter().map(|x| !*x).collect();
+                monitor_result(&mut rec, n, "ctor &", and, &wand, true);
+                monitor_result(&mut rec, n, "ctor |", or, &wor, true);
+                monitor_result(&mut rec, n, "ctor !", not, &wnot, true);
+            }
+        }
+        Outcome::Panicked(msg) => ctx.violate("no-panic", ev, "sop-ctor", format!("Sop constructor/operator panicked: {}", msg)),
+    }
+}
+
 fn exec(ctx: &mut Ctx, ev: &Ev) {
     match ev.op.as_str() {
+        "sop-ctor" => exec_ctor(ctx, ev),
         "expr" => {
             let leaves = leaves_of(ev);
             let prog = parse_prog(&ev.strs[0]);
@@ -457,6 +494,10 @@ fn main() {
                 }
             }
             _ => {
+                for v in 0..n {
+                    exec_ctor(ctx, &Ev::new("sop-ctor", "Sop", n).int(v));
+                    exec_ctor(ctx, &Ev::new("sop-ctor", "Sop", n + 5).int(v + 5));
+                }
                 let count: u64 = 1u64 << (1u64 << n);
                 for x in 0..count {
                     if n == 4 && !thorough && x % 16 != 0 {
